@@ -83,6 +83,11 @@ CLAIMS = {
             '(and through the context reader): the only allowed outcomes are a boolean, Map-not-found, or the documented not-X12 refusal of a malformed ISA.',
             'Trusted: CrossHair, z3. Documents are concrete, the symbolic inputs are positions and table choices (choice enumeration under the tracer - the weakest kind of obligation here).',
             'DESIGN.md §5 C07'),
+    'C12': ('other', 'bounded symbolic execution (CrossHair+z3) of the whole pipeline on documents re-encoded with symbolically chosen delimiter triples and line-break conventions',
+            'A valid document and single-fault variants (symbolic fault position) are re-encoded with every delimiter triple / line-break convention of the tables (control characters included) '
+            'and read through a 7-character buffer; verdict and acknowledgement text must equal those of the ~ * : encoding. Arbitrary symbolic delimiters for the text layer are C01\'s.',
+            'Trusted: CrossHair, z3. Documents and tables concrete, choices symbolic (choice enumeration under the tracer). One listed known finding (composite value echo).',
+            'DESIGN.md §5 C12'),
 }
 
 NOT_YET = 'check not built yet in this round (planned: see DESIGN.md §5)'
